@@ -18,16 +18,22 @@ import (
 
 func init() { handlers["c10"] = c10 }
 
+var c10Pages = 3 // the lifecycle mode uses a 6-page document
+
 var c10Once sync.Once
 var c10Path string
 var c10Err error
 
-// a 3-page document: page i shows the single token w1x<i>
+// a 6-page document: page i shows the single token w1x<i> (the selection cases use
+// its first three pages only: they pass N = 3 ... see c10Select)
 func c10Doc() (string, error) {
 	c10Once.Do(func() {
 		l := pdfdoc.Layout{Doc: 1, XRef: "table", ObjStm: "none", Filter: "none", Length: "direct", Size: "small", Split: 1,
 			Depth: 1, MediaAt: 0, ResAt: 0, Revs: 1, Numbering: "ascending", Order: "sorted", Eol: "lf", Count: "chain"}
 		base := [][]pdfdoc.Item{{{1, 1}}, {{1, 2}}, {{1, 3}}}
+		if c10Pages == 6 {
+			base = append(base, []pdfdoc.Item{{1, 4}}, []pdfdoc.Item{{1, 5}}, []pdfdoc.Item{{1, 6}})
+		}
 		data, err := pdfdoc.Build(l, base, nil, nil)
 		if err != nil {
 			c10Err = err
@@ -189,11 +195,12 @@ func c10Select(i int, raw []byte) Result {
 // ---------------------------------------------------------------- lifecycle
 
 type lifeOp struct {
-	Op   string `json:"op"`
-	E    int    `json:"e"`
-	Bad  bool   `json:"bad"`
-	Res  string `json:"res"`
-	Open int    `json:"open"`
+	Op    string `json:"op"`
+	E     int    `json:"e"`
+	Kind  string `json:"kind"`
+	Res   string `json:"res"`
+	Pages []int  `json:"pages"`
+	Open  int    `json:"open"`
 }
 type lifeCase struct {
 	Log       []lifeOp `json:"log"`
@@ -210,6 +217,7 @@ func countFDs() int {
 }
 
 func c10Life(i int, raw []byte) Result {
+	c10Pages = 6
 	var c lifeCase
 	if err := json.Unmarshal(raw, &c); err != nil {
 		return fail("decode", "decode", err.Error(), nil)
@@ -233,6 +241,7 @@ func c10Life(i int, raw []byte) Result {
 	for k, op := range c.Log {
 		e := exts[op.E-1]
 		got := "ok"
+		wrongPages := false
 		func() {
 			defer func() {
 				if p := recover(); p != nil {
@@ -241,26 +250,32 @@ func c10Life(i int, raw []byte) Result {
 			}()
 			switch op.Op {
 			case "derive":
-				if op.Bad {
+				switch op.Kind {
+				case "p4":
+					exts = append(exts, e.Pages(4))
+				case "p5":
+					exts = append(exts, e.Pages(5))
+				case "r13":
+					exts = append(exts, e.PageRange(1, 3))
+				case "bad":
 					exts = append(exts, e.Pages(99))
-				} else if len(exts)%2 == 1 {
-					exts = append(exts, e.Pages(1, 2, 3))
-				} else {
+				default:
 					exts = append(exts, e.ByColumn())
 				}
 			case "pagecount":
 				n, err := e.PageCount()
 				if err != nil {
 					got = "error: " + err.Error()
-				} else if n != 3 {
+				} else if n != 6 {
 					got = fmt.Sprintf("wrong page count %d", n)
 				}
 			case "text":
 				s, _, err := e.Text()
 				if err != nil {
 					got = "error: " + err.Error()
-				} else if fmt.Sprint(tokensOf(s)) != "[1 2 3]" {
-					got = "wrong text " + s
+				} else if fmt.Sprint(tokensOf(s)) != fmt.Sprint(op.Pages) {
+					got = fmt.Sprintf("wrong pages %v, the extractor's own selection is %v", tokensOf(s), op.Pages)
+					wrongPages = true
 				}
 			case "close":
 				if err := e.Close(); err != nil {
@@ -269,7 +284,14 @@ func c10Life(i int, raw []byte) Result {
 			}
 		}()
 		open := countFDs() - base
-		events = append(events, Event{"event": op.Op, "e": op.E, "bad": op.Bad, "res": classify(got), "open": open})
+		pagesSeen := []int{}
+		if op.Op == "text" && classify(got) == "ok" {
+			pagesSeen = op.Pages
+		}
+		events = append(events, Event{"event": op.Op, "e": op.E, "kind": op.Kind, "res": classify(got), "pages": pagesSeen, "open": open})
+		if wrongPages {
+			return mk("life-selection-changed", fmt.Sprintf("Text() of extractor %d returned %s: a derivation from a shared base changed this extractor's selection", op.E, got), k)
+		}
 		want := op.Res
 		if classify(got) == "panic" {
 			return mk("life-panic", fmt.Sprintf("%s panicked: %s", op.Op, got), k)
